@@ -28,3 +28,10 @@ addfile("KF2","C16","open","open-appends-although-root-exists",
 addfile("KF4","C16","open","write-after-open-fails",
     "after opening a tape whose tail is cut off the 512-byte grid (or inside a record), later writes are appended directly behind the torn bytes: they are never indexed (the call fails with not-exist or the entry is lost on rebuild)",
     relax="torn-tail-append")
+add("F26","C03","fixed","read-fails","pgp + parallelbzip2: content larger than one bzip2 block could not be read back (OpenPGP body read again after EOF -> 'MDC hash mismatch')",
+    ops=[{"k":"content","p":"/f0","d":D(150038,7,"rand")}], cfg_=cfg(comp="parallelbzip2",enc="pgp"), params={"chunk":0,"sleep":0}, commit="571f59e")
+add("F27","C08","fixed","accepted-header-not-signed","PGP: a record whose STFS.Signature is garbage (valid base64 that is no signature, not base64 at all, a non-signature packet) had its forged embedded header accepted by the index rebuild",
+    ops=[{"k":"mkdir","p":"/d","m":0o755},{"k":"writefile","p":"/d/f","d":D(10,1)}], cfg_=cfg(sig="pgp"), params={"enumerate":0,"a0":0,"a1":0,"a2":0}, sparams={"alt":"garbage-sig"}, commit="104d778")
+add("KF5","C01","open","root-name-differs",
+    "the root directory reports its own name as \"/\" on the instance that created the tape and as \".\" after the index has been rebuilt from the tape (the rebuild stores the root under the sanitized name \"\")",
+    ops=[{"k":"mkdir","p":"/a","m":0o755}], relax="root-name")
